@@ -130,6 +130,13 @@ def main():
             oo = corpus.option_sets(rng, 1, pdeps=0.1)[0]
         payload.append({"src": src, "opts": oo, "timeout": 10})
     res = common.run_real("w_convert", payload, timeout=3000)
+    # a conversion that hit the alarm is repeated alone with a longer alarm (a hang persists, a loaded machine does not)
+    late = [k for k, r in enumerate(res) if r.get("exc") == "TIMEOUT"]
+    if late:
+        again = common.run_real("w_convert", [dict(payload[k], timeout=90) for k in late], shards=1, timeout=3000)
+        for k, r in zip(late, again):
+            res[k] = r
+        rep.count("conversions_repeated_after_alarm", len(late))
     cases, meta = [], []
     for (src, o, exp, sit), pl, r in zip(plan, payload, res):
         outcome = "ok" if "out" in r else ("timeout" if r.get("exc") == "TIMEOUT" else r.get("outcome", "other:?"))
